@@ -600,6 +600,12 @@ func (r *simReceiver) Recv(ctx context.Context) (*workflow.Event, workflow.Ack, 
 	}
 	idx, e := s.nextEvent(r.topic, r.name)
 	if e == nil {
+		if p == nil {
+			// a receive made outside any role context (the call carried no lease: API=-2 was recorded by enter) and nothing to
+			// deliver: a real streamer would block on the caller's context; here the call fails so that the process goes on to
+			// its next adapter call and the simulation keeps control
+			return nil, nil, errors.New("sim: receive outside a role context")
+		}
 		panic("Recv granted without an available event")
 	}
 	s.emit(p, "RV="+s.eventTok(e))
